@@ -220,7 +220,7 @@ theorem agree_of_old_eq_fixed {T : Tbl} (hR : RepOK T (htmlRep T) T.particles) (
             unfold ampNeedsEscape
             cases cs with
             | nil => simp [entityLen, runSemi, spanLen] at hold
-            | cons d ds => simp [hold]
+            | cons d ds => simp [ampNeedsEscapeMid, hold]
           rw [hnew] at this; simp at this
         · -- both escape
           refine ⟨rfl, ih cs.length (by omega) cs rfl ?_⟩
